@@ -930,7 +930,9 @@ pub fn session(rng: &mut Rng, opts: Opts, with_failures: bool) -> Session {
         let b = *g.rng.pick(&["abs", "max", "min", "quotient"]);
         let at = 1 + g.rng.usize(forms.len());
         let wrap = crate::engines::c05::parse_forms(&format!(
-            "(define wrapcnt 0) (define old-{b} {b}) (define ({b} . a) (set! wrapcnt (+ wrapcnt 1)) (apply old-{b} a))",
+            // the previous binding is captured lexically, so that wrapping twice in one VM (long-lived VM lanes
+            // run many sessions in a row) nests wrappers instead of making one call itself
+            "(define wrapcnt 0) (define {b} (let ((old {b})) (lambda a (set! wrapcnt (+ wrapcnt 1)) (apply old a))))",
             b = b
         ));
         for (k, w) in wrap.into_iter().enumerate() {
